@@ -77,6 +77,9 @@ fn oracle(c: &ProgCase, obs: &mut Obs) -> Result<(), Violation> {
     if effect_after_push {
         obs.label("effect-after-push");
     }
+    if bytes.len() > 64 && bytes.chunks(64).any(|b| !b.iter().any(|x| EFFECT_OPS.iter().any(|e| e.opcode() == *x))) {
+        obs.label("long-with-effect-free-64-byte-block");
+    }
     if expected.count_ones() >= 4 {
         obs.label(">=4 effects");
     }
@@ -102,8 +105,17 @@ fn prog_case() -> impl Strategy<Value = ProgCase> {
         1 => gen::word().prop_map(PUSH),
         3 => gen::any_mop(),
     ];
+    // long programs in which effect bytes are rare: whole stretches (blocks, words, cache lines) hold none of them, and
+    // pushes of small words (whose immediates are 0x00/0x01 = the Push opcode itself) fall at every alignment
+    let sparse_op = prop_oneof![
+        12 => (0i64..3).prop_map(PUSH),
+        12 => gen::any_mop().prop_map(|o| if effect_bit(&o) != 0 || matches!(o, PUSH(_)) { POP } else { o }),
+        1 => (0usize..6).prop_map(|i| EFFECT_OPS[i]),
+        1 => tricky_word().prop_map(PUSH),
+    ];
     prop_oneof![
         4 => proptest::collection::vec(op, 0..24),
+        3 => proptest::collection::vec(sparse_op, 0..160),
         // permutations / prefixes of the six effect ops with filler
         2 => (Just(EFFECT_OPS.to_vec()).prop_shuffle(), 0usize..7, proptest::collection::vec(tricky_word().prop_map(PUSH), 0..3)).prop_map(|(mut v, keep, fill)| {
             v.truncate(keep);
@@ -125,9 +137,9 @@ fn prog_case() -> impl Strategy<Value = ProgCase> {
 pub fn property() -> Property {
     Property {
         id: "C15",
-        rule: "generated well-formed programs over the full op set in which Push immediates carry each of the six effect opcodes and the Push opcode at every byte position, effect ops directly after a Push / at the start / at the end, and shuffled prefixes of all six effect ops; for each program all 64 effect subsets are queried (exhaustive per program). Oracle: the set folded over RefAsm's decoding of the bytes; bytes_contains_any(bytes,S) == (expected ∩ S != ∅) for all S, analyze(ops) == expected exactly. Non-trivial = an immediate contains an effect/Push opcode byte or an effect op follows a Push.",
+        rule: "generated well-formed programs over the full op set in which Push immediates carry each of the six effect opcodes and the Push opcode at every byte position, effect ops directly after a Push / at the start / at the end, shuffled prefixes of all six effect ops, and long programs (up to 160 ops, ~700 bytes) in which effect bytes are sparse so that Push immediates straddle every block boundary; for each program all 64 effect subsets are queried (exhaustive per program). Oracle: the set folded over RefAsm's decoding of the bytes; bytes_contains_any(bytes,S) == (expected ∩ S != ∅) for all S, analyze(ops) == expected exactly. Non-trivial = an immediate contains an effect/Push opcode byte or an effect op follows a Push.",
         assumptions: vec!["effect flags are numbered as documented on `Effects` (KeyRange=1<<0 … PostKeyRangeExtern=1<<5)"],
-        health: vec![("eff.all_subsets", "immediate-has-effect-byte", 300), ("eff.all_subsets", ">=4 effects", 50)],
+        health: vec![("eff.all_subsets", "immediate-has-effect-byte", 300), ("eff.all_subsets", ">=4 effects", 50), ("eff.all_subsets", "long-with-effect-free-64-byte-block", 100)],
         subs: vec![prop_sub("eff.all_subsets", 900_000, 7_200_000, |_| prog_case(), |c: &ProgCase, obs| {
             let r = oracle(c, obs);
             obs.extra_evals += 64;
